@@ -13,7 +13,11 @@ Streams: `gen` (random programs; every second one with identifiers of all charac
 user types), `anon` (interfaces whose methods take inline function types over user types with such identifiers: the class name of an
 anonymous function is computed from the spelling of its signature by the Java and by the JNI generator), `hist` (ONE `API` object,
 2-3 successive configure → parse → generate rounds with other packages / support-types packages / identifier styles and programs
-with `async` methods; each round's glue is checked against that round's javap output), corpus.
+with `async` methods; each round's glue is checked against that round's javap output), `tgt` (records, interfaces and named function
+types whose target lists walk the whole lattice of lists over the supported keys cpp / cppcli / java / objc / yaml — lists with
+neither cpp nor java, one of them, both — in every spelling (`+a +b`, `-c -d`, `+any -c`, `+a +c -c`, repetitions), referred to from
+each other's fields, parameters, results and inline function types: which Java class, proxy class and natives exist and which
+lookups / exports the glue has are both functions of the list), corpus.
 Specification on the implementation's observations (`c07.spec`): every looked-up (class, member, descriptor)
 exists in the Java classes (superclasses searched, static-ness respected); every `native` method has exactly one
 export with the mangled name and the C types of its Java signature; no orphan `Java_…` export.
@@ -195,6 +199,9 @@ JAVA_PACKAGES = ['com.ex.lib', 'a.bb.c_d.e1', 'org.other.app', 'io.x1.y_2z.w']
 SUPPORT_PACKAGES = [None, None, 'support', 'internal.sup_types']
 
 
+TARGET_PLAN = ['enum', 'flags', 'record', 'record', 'record', 'interface', 'function', 'interface', 'function', 'record', 'interface', 'function', 'interface']
+
+
 def gen_config(r: random.Random, out: Path, klass: int) -> dict:
     """klass 0: default identifier styles; 1: random configuration inside the configuration domain of the theorems (the JNI
     generator's class / method styles are those of the Java generator); 2: any random configuration"""
@@ -365,6 +372,16 @@ def _worker(args) -> list[dict]:
         g = gen_api.ProgGen(r, java_compiles=True, base_records=False, names=gen_api.shape_names(r, 8), inline_user_types=True,
                             inline_p=0.6, user_p=0.75, min_methods=2)
         text = gen_api.render(g.program(plan=['enum', 'flags', 'record', 'record', 'interface', 'interface', 'interface']))
+    elif kind == "tgt":
+        # target lists: records, interfaces and named function types over the whole lattice of lists (`+objc`, `+cppcli +yaml`,
+        # `-cpp -java`, `+any -java`, `+cpp +java`, …), referred to from each other's fields, parameters and results. Which Java
+        # class / proxy / natives exist and which lookups / exports the glue has are both functions of the list
+        r = random.Random(f"{seed}/c07/tgt/{pi}")
+        cfg = gen_config(r, base / "out", pi % 2)
+        g = gen_api.ProgGen(r, java_compiles=True, inline_user_types=pi % 2 == 1, user_p=0.7, min_methods=1, async_p=0.1,
+                            names=gen_api.SAFE_NAMES + gen_api.shape_names(r, 4, avoid=gen_api.SAFE_NAMES),
+                            target_lists=gen_api.TargetRotation(r, java_record_p=0.2 if pi % 3 else 1.0))
+        text = gen_api.render(g.program(plan=TARGET_PLAN))
     else:
         cfg = _place({"generate": payload["config"]["generate"] if "generate" in payload["config"] else payload["config"]}, base)
         text = payload["idl"]
@@ -411,11 +428,12 @@ def run(ctx):
         ctx.stats["break_examples"] = [{k: b[k] for k in ("attribute", "input", "implementation", "model")} for b in breaks[:8]]
     # ---- file level ------------------------------------------------------------------------------------------
     corpus = json.loads((common.VERIF / "corpus" / "c07.json").read_text()) if (common.VERIF / "corpus" / "c07.json").exists() else []
-    n, n_anon, n_hist = ctx.n(44, 600), ctx.n(6, 80), ctx.n(5, 60)
+    n, n_anon, n_hist, n_tgt = ctx.n(44, 600), ctx.n(6, 80), ctx.n(5, 60), ctx.n(10, 120)
     # call histories first: they are the longest jobs
     jobs = [("hist", ctx.seed, hi, str(ctx.tmp / f"hist_{hi}"), None) for hi in range(n_hist)]
     jobs += [("corpus", ctx.seed, i, str(ctx.tmp / f"corpus_{i}"), c) for i, c in enumerate(corpus)]
     jobs += [("anon", ctx.seed, pi, str(ctx.tmp / f"anon_{pi}"), None) for pi in range(n_anon)]
+    jobs += [("tgt", ctx.seed, pi, str(ctx.tmp / f"tgt_{pi}"), None) for pi in range(n_tgt)]
     jobs += [("gen", ctx.seed, pi, str(ctx.tmp / f"prog_{pi}"), None) for pi in range(n)]
     t0 = time.time()
     with multiprocessing.get_context("fork").Pool(14) as pool:
